@@ -156,15 +156,19 @@ package wal
 //@   trusted contents of the persisted view are covered by the segment-map model (not yet under contract)
 //@   ensures true
 
-//@ -- function-type contract of a metadata transaction body
+//@ -- function-type contract of a metadata transaction body: it receives a clone
+//@ -- of the well-formed published state and, when it succeeds, leaves a state
+//@ -- whose segment map may be persisted (C03/C04: PInv at every CommitState)
 //@ func stateTxn(s)
+//@   requires s != nil && WFS(s)
 //@   assigns s
-//@   ensures true
+//@   ensures result2 == nil ==> SInv(s)
 
 //@ func (*WAL).mutateStateLocked
-//@   props C04 C10
-//@   requires w.metaDB != nil && tx != nil && av(w.s) != nil
+//@   props C03 C04 C10
+//@   requires w.metaDB != nil && tx != nil && av(w.s) != nil && WFS(av(w.s))
 //@   assigns w.s, g_commits, av(w.s).refCount, av(w.s).finalizer
+//@   site after-call(stateTxn#1) requires[C03.pinv-at-commit] callresult._2 == nil ==> SInv(newS)
 //@   site atomic-store(s) requires[C10.published-after-commit] g_commits == old(g_commits) + 1
 //@   site atomic-store(finalizer) requires[C04.finalizer-after-commit] g_commits == old(g_commits) + 1
 //@   ensures[C04.one-commit-per-txn] result == nil ==> g_commits == old(g_commits) + 1
@@ -177,14 +181,25 @@ package wal
 //@ -- ------------------------------------------------------------------------
 //@ predicate unsealedSeg(seg) = iszero(seg.SealTime)
 
-//@ -- WFS(s): a well-formed state (every published state satisfies it)
-//@ predicate WFS(s) = s.segments != nil && s.tail != nil && smnonempty(s.segments)
-//@   && (forall k uint64 :: {smhas(s.segments, k)} smhas(s.segments, k) ==> k >= 1 && smget(s.segments, k).BaseIndex == k && smget(s.segments, k).MinIndex >= k && smget(s.segments, k).r != nil)
+//@ -- SInv(s): the segment map describes one contiguous, unambiguous log. This
+//@ -- is what CommitState persists (C03/C04 "PInv"): keys are BaseIndexes (>= 1),
+//@ -- every segment that has a successor is sealed with MinIndex <= MaxIndex and
+//@ -- its successor starts at MaxIndex+1 (no gap, no overlap), segment IDs grow
+//@ -- with the key and stay below nextSegmentID (C13: never reused).
+//@ predicate SInv(s) = s.segments != nil
+//@   && (forall k uint64 :: {smhas(s.segments, k)} smhas(s.segments, k) ==> k >= 1 && smget(s.segments, k).BaseIndex == k
+//@          && smget(s.segments, k).MinIndex >= k && smget(s.segments, k).ID < s.nextSegmentID)
+//@   && (forall k uint64 :: {smhas(s.segments, k)} smhas(s.segments, k) && hasnext(s.segments, k) ==>
+//@          !unsealedSeg(smget(s.segments, k)) && smget(s.segments, k).MinIndex <= smget(s.segments, k).MaxIndex
+//@          && smnext(s.segments, k) == smget(s.segments, k).MaxIndex + 1
+//@          && smget(s.segments, smnext(s.segments, k)).ID > smget(s.segments, k).ID)
+
+//@ -- WFS(s): a well-formed published state: SInv, a non-empty map whose greatest
+//@ -- segment is the unsealed tail served by s.tail, and a reader for every segment
+//@ predicate WFS(s) = SInv(s) && s.tail != nil && smnonempty(s.segments)
+//@   && (forall k uint64 :: {smhas(s.segments, k)} smhas(s.segments, k) ==> smget(s.segments, k).r != nil)
 //@   && unsealedSeg(smget(s.segments, smmax(s.segments))) && s.tail.base == smmax(s.segments)
 //@   && (s.tail.last == 0 || s.tail.last >= smget(s.segments, smmax(s.segments)).MinIndex)
-//@   && (forall k uint64 :: {smhas(s.segments, k)} smhas(s.segments, k) && k != smmax(s.segments) ==>
-//@          !unsealedSeg(smget(s.segments, k)) && smget(s.segments, k).MinIndex <= smget(s.segments, k).MaxIndex
-//@          && hasnext(s.segments, k) && smnext(s.segments, k) == smget(s.segments, k).MaxIndex + 1)
 
 //@ -- the reference model's bounds (property C05), as functions of the state
 //@ predicate FirstOf(s) = ite(smmin(s.segments) == smmax(s.segments) && s.tail.last == 0, 0, smget(s.segments, smmin(s.segments)).MinIndex)
@@ -314,3 +329,42 @@ package wal
 //@   props C08
 //@   requires w.metrics != nil && w.metaDB != nil
 //@   ensures true
+
+// ---------------------------------------------------------------------------
+// wal.go — metadata transactions over the segment map
+// ---------------------------------------------------------------------------
+
+//@ -- all segments sealed (the shape of the map just before a new tail is added)
+//@ predicate AllSealed(s) = SInv(s) && (smnonempty(s.segments) ==> !unsealedSeg(smget(s.segments, smmax(s.segments)))
+//@        && smget(s.segments, smmax(s.segments)).MinIndex <= smget(s.segments, smmax(s.segments)).MaxIndex
+//@        && smget(s.segments, smmax(s.segments)).MaxIndex < 0xfffffffffffffff0)
+
+//@ func (*WAL).createNextSegment
+//@   props C03 C04 C13
+//@   requires newState != nil && w.codec != nil && AllSealed(newState) && newState.nextSegmentID < 0xfffffffffffffff0
+//@   requires !smnonempty(newState.segments) ==> newState.nextBaseIndex < 0xfffffffffffffff0
+//@   assigns newState.nextSegmentID, newState.segments
+//@   ensures result1 == nil && result0 != nil
+//@   ensures[C13.fresh-id] newState.nextSegmentID == old(newState.nextSegmentID) + 1 && smget(newState.segments, smmax(newState.segments)).ID == old(newState.nextSegmentID)
+//@   ensures[C04.new-tail-base] smnonempty(newState.segments) && smmax(newState.segments) == ite(old(smnonempty(newState.segments)), old(smget(newState.segments, smmax(newState.segments)).MaxIndex) + 1,
+//@        ite(old(newState.nextBaseIndex) > 0, old(newState.nextBaseIndex), 1))
+//@   ensures[C04.new-tail-unsealed] unsealedSeg(smget(newState.segments, smmax(newState.segments))) && smget(newState.segments, smmax(newState.segments)).MinIndex == smmax(newState.segments)
+//@      && smget(newState.segments, smmax(newState.segments)).MaxIndex == 0
+//@   ensures[C03.pinv-create] SInv(newState)
+//@   ensures[C04.others-kept] forall k uint64 :: {smhas(newState.segments, k)} old(smhas(newState.segments, k)) ==> smhas(newState.segments, k)
+//@        && smget(newState.segments, k).ID == old(smget(newState.segments, k).ID) && smget(newState.segments, k).MinIndex == old(smget(newState.segments, k).MinIndex)
+//@        && smget(newState.segments, k).MaxIndex == old(smget(newState.segments, k).MaxIndex) && smget(newState.segments, k).SealTime == old(smget(newState.segments, k).SealTime)
+//@        && smget(newState.segments, k).IndexStart == old(smget(newState.segments, k).IndexStart) && smget(newState.segments, k).Codec == old(smget(newState.segments, k).Codec)
+
+//@ -- rotation: seal the (non-empty, sealed-on-disk) tail in the metadata and add a new tail
+//@ func (*WAL).rotateSegmentLocked$1
+//@   props C03 C04 C13
+//@   implements wal.stateTxn
+//@   requires w != nil && w.codec != nil && w.metrics != nil && newState.nextSegmentID < 0xfffffffffffffff0
+//@   requires newState.tail.last != 0 && newState.tail.last < 0xfffffffffffffff0
+//@   assigns newState.segments, newState.nextSegmentID
+//@   ensures[C04.rotate-seals-tail] result2 == nil ==> smhas(newState.segments, old(smmax(newState.segments))) && !unsealedSeg(smget(newState.segments, old(smmax(newState.segments))))
+//@        && smget(newState.segments, old(smmax(newState.segments))).MaxIndex == newState.tail.last && smget(newState.segments, old(smmax(newState.segments))).IndexStart == indexStart
+//@   ensures[C04.rotate-new-tail] result2 == nil ==> smmax(newState.segments) == newState.tail.last + 1 && unsealedSeg(smget(newState.segments, smmax(newState.segments)))
+//@   ensures[C13.rotate-fresh-id] result2 == nil ==> newState.nextSegmentID == old(newState.nextSegmentID) + 1 && smget(newState.segments, smmax(newState.segments)).ID == old(newState.nextSegmentID)
+//@   ensures result0 == nil
